@@ -485,7 +485,84 @@ func suiteC13(s *Suite, rng *Rng, tier string) {
 			}
 		}
 	}
-	s.Notes["rule"] = "true statements with difference in a dense window (0,1,2,..63) and random up to 2^250, both signs, factor 1..8 (four squares) and 1 (table, every " +
+	c13FullProofs(s, rng, tier, keys)
+	s.Notes["rule"] = "full disclosure proofs: every hidden attribute position of a 5-attribute credential under random disclosed sets (0..3 disclosed), statements >= and <= (one or two per attribute, one or two attributes), " +
+		"created with the library, required to verify and replayed through the model; true statements with difference in a dense window (0,1,2,..63) and random up to 2^250, both signs, factor 1..8 (four squares) and 1 (table, every " +
 		"7th supported table value in quick, all in thorough), 256- and 1024-bit keys; the model recomputes prover output from observed randomness and the verifier " +
 		"reconstruction; several statements per attribute and proof; distinct by statement"
+}
+
+
+// c13FullProofs: a holder for whom the statement is true always gets an accepted proof, wherever the attribute sits
+// among disclosed and hidden ones
+func c13FullProofs(s *Suite, rng *Rng, tier string, keys []*KeyPair) {
+	n := 24
+	if tier == "thorough" {
+		n = 300
+	}
+	for it := 0; it < n; it++ {
+		kp := keys[0]
+		if it%6 == 5 {
+			kp = keys[1]
+		}
+		secret := newSecret(rng)
+		attrs := []*gbig.Int{rng.Bits(40), rng.Bits(60), rng.Bits(100), rng.Bits(30)}
+		cred := issueCredential(kp, secret, attrs, rng)
+		// statements on one or two hidden attributes; the others disclosed at random
+		target := 1 + it%4
+		stmts := map[int][]*rangeproof.Statement{}
+		add := func(idx int) {
+			m := cred.Attributes[idx]
+			lo := new(gbig.Int).Sub(m, bi(int64(rng.Intn(1000))))
+			if lo.Sign() < 0 {
+				lo = bi(0)
+			}
+			st, _ := rangeproof.NewStatement(rangeproof.GreaterOrEqual, lo)
+			stmts[idx] = append(stmts[idx], st)
+			if rng.Bool() {
+				st2, _ := rangeproof.NewStatement(rangeproof.LesserOrEqual, new(gbig.Int).Add(m, bi(int64(rng.Intn(1000)))))
+				stmts[idx] = append(stmts[idx], st2)
+			}
+		}
+		add(target)
+		second := 1 + rng.Intn(4)
+		if rng.Intn(3) == 0 && second != target {
+			add(second)
+		}
+		var disclosed []int
+		for i := 1; i <= 4; i++ {
+			if _, has := stmts[i]; !has && rng.Intn(3) != 0 {
+				disclosed = append(disclosed, i)
+			}
+		}
+		ctx, nonce := rng.Bits(200), rng.Bits(80)
+		desc := fmt.Sprintf("%d-bit key, statements on %v, disclosed %v", kp.Bits, keysOf(stmts), disclosed)
+		proof, err := cred.CreateDisclosureProof(disclosed, stmts, false, ctx, nonce)
+		if err != nil {
+			s.Violate("C13:true-statement-unprovable", "CreateDisclosureProof failed for true statements ("+desc+"): "+err.Error(), L{desc})
+			continue
+		}
+		_, acc, _ := verifyCase(s, fmt.Sprintf("%d:full-proof:%d-disclosed", kp.Bits, len(disclosed)), false, []*gabikeys.PublicKey{kp.Pk}, ctx, nonce, false, nil, gabi.ProofList{proof})
+		s.Nontrivial[desc+fmt.Sprint(it)] = true
+		if !acc {
+			s.Violate("C13:honest-range-proof-rejected", "disclosure proof with true range statements does not verify ("+desc+")", L{desc})
+		}
+	}
+}
+
+func keysOf(m map[int][]*rangeproof.Statement) []int {
+	var ks []int
+	for k := range m {
+		ks = append(ks, k)
+	}
+	sortInts(ks)
+	return ks
+}
+
+func sortInts(a []int) {
+	for i := 1; i < len(a); i++ {
+		for j := i; j > 0 && a[j] < a[j-1]; j-- {
+			a[j], a[j-1] = a[j-1], a[j]
+		}
+	}
 }
